@@ -1,0 +1,9 @@
+//go:build verif
+
+package cmd
+
+// VerifBuildSpecialKeyJson exposes buildSpecialKeyJson (the `{.}` / `{#}` / `{.#}`
+// values of `rare expression -d ... -k ...`) to a verification harness.
+func VerifBuildSpecialKeyJson(matches []string, values map[string]string) string {
+	return buildSpecialKeyJson(matches, values)
+}
